@@ -247,7 +247,7 @@ class Handle:
 
     # -- operations ----------------------------------------------------------------------------
     OPS = ["route", "route_keyed", "retrieve", "count", "set_status", "set_result", "sb_result", "sb_exception", "heartbeat",
-           "store_rctx", "wf_data", "wait", "cds_store", "reg_trigger", "emit", "cron", "claim", "trigger_loop",
+           "store_rctx", "wf_data", "wait", "cds_store", "reg_trigger", "emit", "cron", "cron_tick", "claim", "trigger_loop",
            "purge_broker", "purge_orchestrator", "purge_state_backend", "purge_trigger", "purge_client_data_store", "purge_app"]
 
     def do(self, op: str, arg: int = 0) -> str:
@@ -348,6 +348,21 @@ class Handle:
                 ok = a.trigger.store_last_cron_execution(
                     c.condition_id, datetime(2024, 1, 1 + arg % 27, tzinfo=UTC), a.trigger.get_last_cron_execution(c.condition_id))
                 return f"cas:{ok}"
+            if op == "cron_tick":
+                # one pass of the time-based trigger check at a fixed instant (5 s into a minute): whether this application's
+                # own cron condition fires depends on this application's own history only
+                from pynenc.trigger.conditions import CronCondition
+
+                c = CronCondition("* * * * *")
+                a.trigger.register_condition(c)
+                if c.condition_id not in self.conds:
+                    self.conds.append(c.condition_id)
+                t = datetime(2024, 3, 1, 12, (arg // 3) % 50, 5, tzinfo=UTC)   # (in the set-up every application ticks at the SAME instant)
+                before = a.trigger.get_last_cron_execution(c.condition_id)
+                a.trigger.check_time_based_triggers(t)
+                after = a.trigger.get_last_cron_execution(c.condition_id)
+                # (no absolute time in the answer: an earlier `trigger_loop` stores the real clock's reading)
+                return f"tick:{'none' if after is None else 'this-instant' if after == t else 'other'}:{'fired' if after != before else 'quiet'}"
             if op == "claim":
                 return f"claim:{a.trigger.claim_trigger_run(f'run-{arg % 4}', 3600)}"
             if op == "trigger_loop":
